@@ -485,3 +485,28 @@ def c11j(ctx):
     for o in sub.obs:
         (ctx.ok if o.status == 'ok' else ctx.bad)('%s:%s' % (o.rule, o.construct), o.msg, o.where)
     ctx.stats['functions'] |= sub.stats['functions']
+
+
+@rule('C11.k', floor=2)
+def c11k(ctx):
+    """the saved progress of one task is never taken for the progress of another: the configuration splits a seed entry into several
+    tasks that differ only in their levels (one per level for caches with rescaled tiles); the key the progress is stored under
+    (SeedTask.id) therefore contains the levels next to name, cache and grid.  With a key that several tasks share, the first one that
+    finishes marks all others as done: their tiles are never requested"""
+    fn = ctx.fn(S + ':SeedTask.id')
+    rets = [fn.canon.expr(r.value) for r in returns_of(fn.node) if r.value is not None]
+    ok = bool(rets)
+    missing = []
+    for f in rets:
+        elts = f.elts if isinstance(f, ast.Tuple) else [f]
+        texts = [unparse(e) for e in elts]
+        for want in ("self.md['name']", "self.md['cache_name']", "self.md['grid_name']"):
+            if not any(want in t for t in texts):
+                missing.append(want)
+        if not any(contains(e, lambda x: isinstance(x, ast.Attribute) and unparse(x) == 'self.levels') for e in elts):
+            missing.append('self.levels')
+    ctx.check(ok and not missing, 'SeedTask.id:names-the-levels', 'the progress key is (name, cache, grid, levels)', fn,
+              fail='the progress key of a seed task lacks %s: tasks that differ only in that share one saved progress' % missing)
+    sc = ctx.fn('mapproxy/seed/config.py:SeedConfiguration.seed_tasks')
+    per_level = [x for x in sc.walk() if is_call(x, 'SeedTask') and len(x.args) >= 3 and isinstance(x.args[2], ast.List) and len(x.args[2].elts) == 1]
+    ctx.check(bool(per_level), 'SeedConfiguration.seed_tasks:per-level-tasks', 'one seed entry can become several tasks with the same name/cache/grid (one per level)', sc)
